@@ -1,10 +1,10 @@
 (* Property C13 -- every stored value is dropped exactly once; type erasure never lies.
-   Statements only.  The global ledger (every token made is dropped exactly once by the time the
-   cache is gone) is checked on the implementation by the correspondence engine; here: who drops
-   what, operation by operation, and the guarded casts of the code. *)
+   Statements only.  Who drops what, operation by operation; the guarded casts of the code; and the
+   global ledger of the model for every history (the implementation's own ledger is checked by the
+   correspondence engine). *)
 From Coq Require Import List String NArith ZArith Bool.
 From AM Require Import Rust.Ast Gen.Entry Ref.Load Ref.Sys Proofs.SysGrows Proofs.SysStatic Proofs.SysMap
-  Proofs.SysReload Tie.Erasure Tie.Entry Tie.Maps Rust.Script.
+  Proofs.SysReload Proofs.SysLedger Tie.Erasure Tie.Entry Tie.Maps Rust.Script.
 Import ListNotations.
 
 Theorem C13_casts_are_guarded_by_the_type_id :
@@ -63,3 +63,40 @@ Proof. exact key_eqb_eq. Qed.
 Theorem C13_code_reload_swaps_whole_same_typed_values :
   write_guards_type UntypedEntry_write = true /\ swap_any_wf swap_any = true.
 Proof. exact reload_swaps_whole_same_typed_values. Qed.
+
+(* The ledger.  Tokens are the numbers handed out to the values the loaders (and get_or_insert's
+   callers) make; [toks] are the tokens held by the cache entries, [drops] the tokens the trace reports
+   as dropped.  For every history from the empty cache -- any operations, any nesting of Compounds,
+   any fault, error or panic: a token has been handed out exactly when it is held by one entry or has
+   been dropped once ... *)
+Theorem C13_ledger_of_every_history : forall reloader ops t, t <> 0%N ->
+  let x := run (init_st reloader) ops in
+  ind 1 (next_tok (fst x)) t = (cnt t (drops (trace_of (snd x))) + cnt t (toks (fst x)))%nat.
+Proof. exact ledger_of_every_history. Qed.
+
+(* ... so no value is dropped twice, none is dropped while an entry still holds it, no two entries
+   hold the same value ... *)
+Theorem C13_no_double_drop : forall reloader ops t, t <> 0%N ->
+  let x := run (init_st reloader) ops in
+  (cnt t (drops (trace_of (snd x))) + cnt t (toks (fst x)) <= 1)%nat.
+Proof. exact no_double_drop. Qed.
+
+(* ... and once the cache is empty every value ever made has been dropped exactly once *)
+Theorem C13_everything_dropped_once_when_empty : forall reloader ops t,
+  let x := run (init_st reloader) ops in
+  cache (fst x) = [] -> (1 <= t)%N -> (t < next_tok (fst x))%N -> cnt t (drops (trace_of (snd x))) = 1%nat.
+Proof. exact everything_dropped_once_when_empty. Qed.
+
+(* one operation at a time: what was made is stored, dropped or handed over, from any state whose
+   keys are distinct (which the operation preserves) *)
+Theorem C13_every_operation_balances : forall fuel s o,
+  let x := step fuel s o in Bal s (fst (fst x)) [] (snd x) [].
+Proof. exact step_bal. Qed.
+
+Example C13_ledger_nonvacuous :
+  let x := run (init_st true)
+             [OWrite "a" "x" (CBytes [52%N]); OLoad TI "a"; OLoadOwned TI "a"; OGetOrInsert TV "v" 7;
+              OWrite "a" "x" (CBytes [53%N]); ONotify [DFile "a" "x"] []; OHotReload [(TI, "a")]; OClear] in
+  cache (fst x) = [] /\ next_tok (fst x) = 5%N /\
+  map (fun t => cnt t (drops (trace_of (snd x)))) [1; 2; 3; 4]%N = [1; 1; 1; 1]%nat.
+Proof. vm_compute. repeat split. Qed.
